@@ -7,6 +7,7 @@ import CallbagModel.Inv.FromIter
 import CallbagModel.Inv.Merge
 import CallbagModel.Inv.Relay
 import CallbagModel.Inv.Share
+import CallbagModel.Inv.ShareWeak
 import CallbagModel.Inv.Take
 /-!
 # C03 — disposal is respected: property theorems (statements only; the invariants are in `Inv/`)
